@@ -18,13 +18,20 @@ VARIABLES sched, pos, result
 vars == <<sched, pos, result>>
 
 Perms(S) == {s \in [1..Cardinality(S) -> S] : \A i, j \in 1..Cardinality(S) : i # j => s[i] # s[j]}
-Workers == [threads : ThreadSet, warm : WarmSet, meters : UNION {Perms(S) : S \in (SUBSET Meters) \ {{}}}]
-MetersOf(w) == {w.meters[i] : i \in 1..Len(w.meters)}
+MeterSeqs == UNION {Perms(S) : S \in (SUBSET Meters) \ {{}}}
+SeqSet(q) == {q[i] : i \in 1..Len(q)}
+\* first the assignment of meters to workers (a sequence of disjoint, ordered blocks covering the batch; workers are
+\* interchangeable, so blocks are listed by their smallest meter), then each worker's thread count and warm kind
+\* (built in two steps: the plain product [1..n -> Workers] exceeds TLC's set-size limit for the thorough constants)
+Assignments ==
+  {a \in UNION {[1..n -> MeterSeqs] : n \in 1..MaxProcs} :
+     /\ \A i, j \in 1..Len(a) : i # j => SeqSet(a[i]) \cap SeqSet(a[j]) = {}
+     /\ UNION {SeqSet(a[i]) : i \in 1..Len(a)} = Meters
+     /\ \A i \in 1..(Len(a) - 1) : Min(SeqSet(a[i])) < Min(SeqSet(a[i + 1]))}
 Schedules ==
-  {s \in UNION {[1..n -> Workers] : n \in 1..MaxProcs} :
-     /\ \A i, j \in 1..Len(s) : i # j => MetersOf(s[i]) \cap MetersOf(s[j]) = {}
-     /\ UNION {MetersOf(s[i]) : i \in 1..Len(s)} = Meters
-     /\ \A i \in 1..(Len(s) - 1) : Min(MetersOf(s[i])) < Min(MetersOf(s[i + 1]))}     \* workers are interchangeable
+  UNION {{[i \in 1..Len(a) |-> [threads |-> t[i], warm |-> w[i], meters |-> a[i]]] : t \in [1..Len(a) -> ThreadSet], w \in [1..Len(a) -> WarmSet]} :
+         a \in Assignments}
+MetersOf(w) == SeqSet(w.meters)
 
 Core(m) == <<"core", m>>                 \* no thread count, no warm kind, no position, no worker
 Init == sched \in Schedules /\ pos = [i \in 1..Len(sched) |-> 0] /\ result = [m \in Meters |-> <<"none">>]
